@@ -136,12 +136,17 @@ def run(tier):
     # constructor looks at is older than the tables the Close flushes
     ub = dbgen.Uniq("p")
     for bi in range(2):
-        st = [dbgen.open_step(2, 1 << 30, 1000, mem=1 << 30)]
+        first = dbgen.open_step(2, 1 << 30, 1000, mem=1 << 30)
+        # (in the second program a handle is even created on the still EMPTY directory, before the first session, and opened after it)
+        st = ([dict(first, op="prenew")] if bi else []) + [first]
         for sess in range(3):
             st += [{"op": "put", "k": k, "v": ub.next(), "pad": 5} for k in range(4)] + ([{"op": "rotate"}, {"op": "barrier"}] if (sess + bi) % 2 else [])
             st += [{"op": "del", "k": sess}, {"op": "getall", "k": 5}]
             nxt = dbgen.open_step(2, 1 << 30, 1000, mem=1 << 30)
-            st += [dict(nxt, op="prenew"), {"op": "close"}, dict(nxt, usepre=True), {"op": "getall", "k": 5}]
+            if bi and sess == 0:
+                st += [{"op": "close"}, dict(nxt, usepre=True), {"op": "getall", "k": 5}]     # the handle created before the first session
+            else:
+                st += [dict(nxt, op="prenew"), {"op": "close"}, dict(nxt, usepre=True), {"op": "getall", "k": 5}]
         st += [{"op": "close"}]
         batches.append(("prenew-%d" % bi, [st], False))
 
